@@ -320,7 +320,7 @@ def witness_still_fails(k):
 def run(run: Run):
     run.witness_check = witness_still_fails
     env = J.make_env()
-    maxlen = 2
+    maxlen = 2 if run.tier == "quick" else 3
     t1 = J.SERVICE_DIR + "_client_macros.j2"
     tree1 = J.parse(env, t1)
     mac = J.find_macro(tree1, "client_method")
